@@ -20,10 +20,20 @@ def _held(H):
     return d
 
 
+_RAISED = []  # accessors that raised during the current observation
+
+
 def _try(f):
     try:
         return f()
-    except Exception:  # noqa: BLE001
+    except Exception as ex:  # noqa: BLE001
+        import linecache
+
+        tb = ex.__traceback__
+        while tb.tb_next is not None and "obs06" in tb.tb_next.tb_frame.f_code.co_filename:
+            tb = tb.tb_next
+        src = linecache.getline(tb.tb_frame.f_code.co_filename, tb.tb_lineno).strip()
+        _RAISED.append(f"{type(ex).__name__} in {src[:70]}")
         return ERR
 
 
@@ -32,6 +42,13 @@ def _ints(xs):
 
 
 def observe(H, g, post, rng):
+    del _RAISED[:]
+    out = _observe(H, g, post, rng)
+    out["obs"]["errs"] = sorted(set(_RAISED))
+    return out
+
+
+def _observe(H, g, post, rng):
     if H is None:
         return {"obs": {}}
     h = _held(H)
@@ -85,6 +102,14 @@ def observe(H, g, post, rng):
     o["fattr"] = [] if not scalar_only else [[md, av, av + 1, 0, -1000 if missing is None else missing, _try(lambda md=md: [
         iN(n) for n in H.nodes.filterby_attr("color", (av, av + 1) if md == "between" else av, md, missing)])]
         for md in MODES]
+    # the same for edges: the attribute statistic itself (falsy values are values) and the filter built on it
+    e_scalar = all("color" not in d or (isinstance(d["color"], int) and not isinstance(d["color"], bool))
+                   for d in H._edge_attr.values())
+    emiss = -1000 if missing is None else missing
+    o["eattrs"] = [] if not e_scalar else [emiss, _try(lambda: [[iE(e), emiss if v is None else int(v)]
+                                                                 for e, v in H.edges.attrs("color", missing=missing).asdict().items()])]
+    o["efattr"] = [] if not e_scalar else [[md, av, av + 1, emiss, _try(lambda md=md: [
+        iE(e) for e in H.edges.filterby_attr("color", (av, av + 1) if md == "between" else av, md, missing)])] for md in MODES]
     nodes = list(H.nodes)
     edges = list(H.edges)
     o["nbr"] = [[iN(n), s, _try(lambda n=n, s=s: sorted(iN(x) for x in H.nodes.neighbors(n, s)))]
@@ -124,7 +149,10 @@ def observe(H, g, post, rng):
         return [[iN(n) for n in bn], [iN(n) for n in vn], _ints(vn.degree.aslist()), [iE(e) for e in be], [iE(e) for e in ve],
                 _ints(ve.size.aslist()), [sorted(iN(x) for x in m) for m in ve.members()], [int(len(vn)), int(len(ve))],
                 [fv, [iN(n) for n in vn.filterby(H.nodes.degree, fv, "geq")]],
-                [fv + 1, [iE(e) for e in ve.filterby(H.edges.size, fv + 1, "leq")]]]
+                [fv + 1, [iE(e) for e in ve.filterby(H.edges.size, fv + 1, "leq")]],
+                # the structural selections of a restricted view stay inside the view
+                [[iE(e) for e in ve.singletons()], [iE(e) for e in ve.empty()], [iN(n) for n in vn.isolates()],
+                 [iE(e) for e in ve.filterby("size", 1)]]]
     o["sub"] = _try(subviews)
     if o["sub"] is ERR:
         o["sub"] = [[-99]]
@@ -164,6 +192,14 @@ def _held_d(H):
 
 
 def observe_directed(H, g, post, rng):
+    del _RAISED[:]
+    out = _observe_directed(H, g, post, rng)
+    if isinstance(out, dict) and isinstance(out.get("obs"), dict):
+        out["obs"]["errs"] = sorted(set(_RAISED))
+    return out
+
+
+def _observe_directed(H, g, post, rng):
     """directed statistics, from stat objects held since the start of the history"""
     if H is None:
         return {"obs": {}}
